@@ -143,7 +143,8 @@ def stepJ (j : J) (sc : List String × List String) : J :=
         | none => false
       if !callsOk then { j' with err := some s!"C05-handler-args-invalid step={j.idx}" } else
       -- C08: the stream ends inside a message ⇒ an error (a clean `disconnected` only at a message boundary), no dispatch
-      let closing := rest.contains "close"
+      let rst := rest.contains "rst"
+      let closing := rest.contains "close" || rst
       let truncated := closing && j.alignedSoFar &&
         (bytes.length < 12 || bytes.length < 12 + leVal ((bytes.drop 8).take 4)) &&
         (bytes.length < 12 || decide (validHeader frontendCodes (leVal (bytes.take 4)) (leVal ((bytes.drop 4).take 4)) (leVal ((bytes.drop 8).take 4))))
@@ -153,6 +154,8 @@ def stepJ (j : J) (sc : List String × List String) : J :=
         else if bytes.length > 0 && o.r == "err.disconnected" then { j' with err := some s!"C08-disconnected-mid-message step={j.idx}" }
         else { j' with alignedSoFar := false }
       else
+      -- after `rst` what the server wrote is not observable: only the truncation clause above and the handler-argument clause apply
+      if rst then { j' with alignedSoFar := false } else
       if !j.alignedSoFar || bytes.length < 12 then { j' with alignedSoFar := false } else
       let (code, flags, size) := hdrOf bytes
       let req : Req := ⟨code, flags, size, bytes.drop 12, nf + nb⟩
